@@ -245,9 +245,16 @@ void CONmtResetRequest(CO_NMT *nmt, CO_NMT_RESET r)
 /* "hbeventcb <sub> <v1> <v2>": the next heartbeat event makes the application re-configure entry 1016h:<sub> from inside the callback
  * (sub > 0), or reset the communication from there (sub = -1: "monitored node lost, so reset communication") */
 static int HecSub; static uint32_t HecV1, HecV2;
+/* "resetin <hbevent|hbchange|apptmr|csdo> <type>": the application resets the node (CONmtReset) from inside the next callback of that kind */
+static int RinCb, RinType;
+static void reset_inside(int which)
+{
+    if (RinCb == which) { RinCb = 0; printf("cb resetin %d %u\n", which, Tick); CONmtReset(&Node->Nmt, (CO_NMT_RESET)RinType); }
+}
 void CONmtHbConsEvent(CO_NMT *nmt, uint8_t id)
 {
     printf("cb hbevent %u %u\n", id, Tick);
+    reset_inside(1);
     if (HecSub != 0) {
         int sub = HecSub; HecSub = 0;
         if (sub > 0) {
@@ -266,6 +273,7 @@ static int HccSub; static uint32_t HccV1, HccV2;
 void CONmtHbConsChange(CO_NMT *nmt, uint8_t id, CO_MODE m)
 {
     printf("cb hbchange %u %d\n", id, (int)m);
+    reset_inside(2);
     if (HccSub > 0) {
         int sub = HccSub; HccSub = 0;
         CO_ERR e1 = CODictWrLong(&nmt->Node->Dict, CO_DEV(0x1016, sub), HccV1);
@@ -325,7 +333,7 @@ void COTpdoReadData(CO_IF_FRM *f, uint8_t pos, uint8_t size, CO_OBJ *obj)
     if (obj->Type == CO_TDOMAIN) { CO_OBJ_DOM *d = (CO_OBJ_DOM *)obj->Data; for (uint8_t i = 0; i < size && i < d->Size && pos + i < 8; i++) f->Data[pos + i] = d->Start[i]; }
 }
 
-static void app_tmr(void *arg)  { printf("cb apptmr %d %u\n", (int)((int *)arg - AppTag), Tick); }
+static void app_tmr(void *arg)  { printf("cb apptmr %d %u\n", (int)((int *)arg - AppTag), Tick); reset_inside(3); }
 static uint32_t CbTmrStart; static int CbTmrTag = -1;     /* csdocbtimer: the completion callback starts an application timer */
 /* csdocbreq <timeout>: the completion callback requests the next transfer on the same client (chained requests); csdocbemcy: it
  * registers an emergency ("SDO transfer failed") */
@@ -339,6 +347,7 @@ static void csdo_cb(CO_CSDO *c, uint16_t idx, uint8_t sub, uint32_t code)
         printf("cb csdoreq %d\n", CbReqRes);
     }
     if (CbEmcy) { CbEmcy = 0; printf("cb csdoemcy\n"); COEmcySet(&Node->Emcy, 0, NULL); }
+    reset_inside(4);
     if (CbTmrTag >= 0) {
         AppTag[CbTmrTag] = CbTmrTag;
         printf("cb csdotimer %d\n", COTmrCreate(&Node->Tmr, CbTmrStart, 0, app_tmr, &AppTag[CbTmrTag]));
@@ -704,7 +713,7 @@ int main(void)
             step = 0;
         } else if (!strcmp(c, "lsspreset")) { LssHave = 1; LssBaud = U(1); LssNode = (uint8_t)U(2); step = 0;
         } else if (!strcmp(c, "init"))  { do_init(); Quiet = 0;
-        } else if (!strcmp(c, "restart")) { Tick = 0; HwCnt = 0; McbAct = 0; RcbAct = 0; HccSub = 0; HecSub = 0; do_init();
+        } else if (!strcmp(c, "restart")) { Tick = 0; HwCnt = 0; McbAct = 0; RcbAct = 0; RinCb = 0; HccSub = 0; HecSub = 0; do_init();
         } else if (!strcmp(c, "reinit")) {  /* the documented restart: stop, init and start again on the RAM as it is (no dictionary rebuild) */
             CONodeStop(Node); LockDepth = 0; RxHave = 0; CONodeInit(Node, &Spec);
         } else if (!strcmp(c, "start")) { CONodeStart(Node);
@@ -726,6 +735,7 @@ int main(void)
         } else if (!strcmp(c, "initcb")) { IcbIdx = X(1); IcbSub = argc > 2 ? X(2) : 0; IcbVal = argc > 3 ? U(3) : 0;
         } else if (!strcmp(c, "ramfillcb")) { McbRamFill = (int)strtol(ARG(1), NULL, 0); step = 0;
         } else if (!strcmp(c, "modecb")) { McbMode = (int)U(1); McbAct = !strcmp(ARG(2), "setmode") ? 1 : !strcmp(ARG(2), "trigpdo") ? 2 : 0; McbArg = argc > 3 ? (int)U(3) : 0;
+        } else if (!strcmp(c, "resetin")) { RinCb = !strcmp(ARG(1), "hbevent") ? 1 : !strcmp(ARG(1), "hbchange") ? 2 : !strcmp(ARG(1), "apptmr") ? 3 : !strcmp(ARG(1), "csdo") ? 4 : 0; RinType = argc > 2 ? (int)U(2) : 2;
         } else if (!strcmp(c, "resetcb")) { RcbAct = !strcmp(ARG(1), "setmode") ? 1 : 0; RcbArg = argc > 2 ? (int)U(2) : 0;
         } else if (!strcmp(c, "setmode")) { CONmtSetMode(&Node->Nmt, (CO_MODE)U(1));
         } else if (!strcmp(c, "getmode")) { printf("ret %d\n", (int)CONmtGetMode(&Node->Nmt));
@@ -789,7 +799,7 @@ int main(void)
                    if (e == CO_ERR_NONE) { CsBuf[n] = b; CsLen[n] = (uint32_t)sz; }
                    printf("ret %d\n", (int)e); }
         } else if (!strcmp(c, "pdotxcb")) { PtxNum = (int)strtol(ARG(1), NULL, 0);
-        } else if (!strcmp(c, "appclear")) { PtxNum = -1; CbReqTmo = 0; CbReqRes = -1; CbEmcy = 0; CbTmrTag = -1; HecSub = 0; HccSub = 0; McbAct = 0; RcbAct = 0;   /* the scripted application forgets its plans */
+        } else if (!strcmp(c, "appclear")) { PtxNum = -1; CbReqTmo = 0; CbReqRes = -1; CbEmcy = 0; CbTmrTag = -1; HecSub = 0; HccSub = 0; McbAct = 0; RcbAct = 0; RinCb = 0;   /* the scripted application forgets its plans */
         } else if (!strcmp(c, "csdocbreq")) { CbReqTmo = U(1); CbReqRes = -1;
         } else if (!strcmp(c, "csdocbreqres")) { printf("ret %d\n", CbReqRes); CbReqRes = -1;
         } else if (!strcmp(c, "csdocbemcy")) { CbEmcy = 1;
